@@ -10,7 +10,7 @@ const char *CHK_RULE = "one case = one table (write target with/without variable
                        "the capacity, or a read/test handler call compared with its twin; distinct by (capacity, argument length, kind, FSM)";
 
 static struct { int ci, kind, fsm; uint8_t data[512]; size_t size, max, argsn; bool nul_ok; size_t slen; } hc[8]; static int nhc;
-static int nvcb;
+static int nvcb; static bool two_pass;
 static cat_return_state policy(struct hcall *h)
 {
         if (nhc < 8) {
@@ -22,6 +22,12 @@ static cat_return_state policy(struct hcall *h)
                 }
         }
         nhc++;
+        if ((h->kind == K_READ || h->kind == K_TEST) && two_pass && nhc == 1) {
+                /* scribble over the text and ask for another pass without emitting: the next invocation must be handed the automatic text again */
+                size_t n = strnlen((char *)h->data, h->max);
+                if (n + 3 < h->max) { memcpy(h->data + n, "zz", 3); *h->psize = n + 2; } else if (h->max) { h->data[0] = 0; *h->psize = 0; }
+                return CAT_RETURN_STATE_NEXT;
+        }
         return (h->kind == K_READ || h->kind == K_TEST) ? CAT_RETURN_STATE_DATA_OK : CAT_RETURN_STATE_OK;
 }
 static int vpolicy(int ci, int vi, int dir, size_t ws) { (void)ci; (void)vi; (void)dir; (void)ws; nvcb++; return 0; }
@@ -45,7 +51,8 @@ static bool vars_changed(void) { uint8_t *now = malloc(nvb + 1); w_save_vars(now
 static void build(size_t cap, bool shared, size_t ucap)
 {
         w_begin();
-        struct cat_command *a = w_group(7, false);
+        struct cat_command *a = w_group(8, false);
+        a[7].name = xstr("+"); a[7].write = h_write; a[7].implicit_write = true; a[7].disable = true;     /* invisible: must not cut the names that start with it */
         a[0].name = xstr("+W"); a[0].write = h_write;
         a[1].name = xstr("+V"); a[1].write = h_write;
         { struct cat_variable *v = w_vars(&a[1], 2); v[0].type = CAT_VAR_UINT_DEC; w_vdata(&v[0], 1); v[0].write = hv_write; v[1].type = CAT_VAR_BUF_STRING; w_vdata(&v[1], 8); v[1].write = hv_write; }
@@ -128,6 +135,7 @@ static void rt_pair(int kind, int fsm, int base /*3 or 5*/)
         if (!run_line()) { inconclusive("no quiescence"); return; }
         if (nunits >= 1 && unit_prod[0] == (fsm == FSM_A ? 'A' : 'U') && strcmp(last_units[0], "ERROR") != 0 && strcmp(last_units[0], "OK") != 0) { snprintf(twin, sizeof twin, "%s", last_units[0]); twin_ok = true; }
         /* now the command with the handler */
+        two_pass = twin_ok && chance(50);
         in_reset();
         if (fsm == FSM_A) { in_puts("AT"); in_puts(hn); in_puts(kind == K_READ ? "?" : "=?"); in_puts("\n"); }
         else if (cat_trigger_unsolicited_event(W.at, W.cmd[base], kind == K_READ ? CAT_CMD_TYPE_READ : CAT_CMD_TYPE_TEST) != CAT_STATUS_OK) { inconclusive("trigger refused"); return; }
@@ -148,7 +156,12 @@ static void rt_pair(int kind, int fsm, int base /*3 or 5*/)
                 } else if (nhc != 0) viol("C06", "handler-though-text-does-not-fit", "twin answered ERROR (text does not fit) but the handler was invoked");
                 return;
         }
-        if (nhc != 1 || hc[0].kind != kind || hc[0].fsm != fsm) { viol("C06", "read-test-handler-not-called", "%d handler calls (first kind %d fsm %d), expected one of kind %d on fsm %d", nhc, nhc ? hc[0].kind : -1, nhc ? hc[0].fsm : -1, kind, fsm); return; }
+        if (two_pass && nhc == 2) {
+                CNT("second_pass_texts_compared");
+                if (strcmp((char *)hc[0].data, (char *)hc[1].data) != 0 || hc[1].size != hc[1].slen || hc[1].max != hc[0].max)
+                        viol("C06", "response-text-second-pass", "after NEXT the handler was handed \"%.60s\" (size %zu) instead of the automatic text \"%.60s\"", (char *)hc[1].data, hc[1].size, (char *)hc[0].data);
+        }
+        if (nhc != (two_pass ? 2 : 1) || hc[0].kind != kind || hc[0].fsm != fsm) { viol("C06", "read-test-handler-not-called", "%d handler calls (first kind %d fsm %d), expected one of kind %d on fsm %d", nhc, nhc ? hc[0].kind : -1, nhc ? hc[0].fsm : -1, kind, fsm); return; }
         const char *te = strchr(twin, '='), *he = strchr((char *)hc[0].data, '=');
         if (!te || !he || strcmp(te, he) != 0 || strncmp((char *)hc[0].data, hn, strlen(hn)) != 0) viol("C06", "response-text", "handler was handed \"%.60s\" but the automatic response of the twin is \"%.60s\"", (char *)hc[0].data, twin);
         else if (hc[0].size != hc[0].slen) viol("C06", "response-length", "*data_size %zu but the text is %zu bytes long", hc[0].size, hc[0].slen);
